@@ -260,8 +260,24 @@ def _lastwins_nokey(I, h, kt):
                 lambda y: z3.Not(_struct_eq(z3.substitute(key_t, (x, y)), kt)))
 
 
+def union_dict(I, st, a, b, cls=None):
+    """dict(a, **b) / {**a, **b} for two mappings of unknown keys: a key is present iff it is in a or in
+    b, and b's value wins.  (Lookups only; iteration order is not modelled.)"""
+    ha, hb = st.heap[a.oid], st.heap[b.oid]
+    if ha.fields.get("$lastwins") is not None or hb.fields.get("$lastwins") is not None \
+            or ha.fields.get("$union") is not None or hb.fields.get("$union") is not None:
+        return None
+    r = I.alloc_dict(st, keys=I.U.fresh_seq("union_keys"), vals=z3.Const("union_vals!%d" % I.new_oid(), z3.ArraySort(vm.V, vm.V)), cls=cls or "dict")
+    st.heap[r.oid].fields["$union"] = (ha.keys, ha.vals, hb.keys, hb.vals)
+    return r
+
+
 def dict_has(I, st, ref, k):
     h = st.heap[ref.oid]
+    if h.fields.get("$union") is not None:
+        ak, av, bk, bv = h.fields["$union"]
+        u = z3.Unit(I.term(k))
+        return BoolV(z3.Or(z3.Contains(ak, u), z3.Contains(bk, u)))
     if h.fields.get("$lastwins") is not None:
         kt = I.term(k)
         return BoolV(z3.Not(_lastwins_nokey(I, h, kt).sfn(h.fields["$lastwins"][0])))
@@ -285,6 +301,11 @@ def dict_load_c(I, st, ref, pk):
 def dict_get(I, st, ref, k):
     """value stored under k (caller has established membership)"""
     h = st.heap[ref.oid]
+    if h.fields.get("$union") is not None:
+        ak, av, bk, bv = h.fields["$union"]
+        kt = I.term(k)
+        r = z3.If(z3.Contains(bk, z3.Unit(kt)), z3.Select(bv, kt), z3.Select(av, kt))
+        return Sym(r)
     if h.fields.get("$lastwins") is not None:
         # the value produced by the LAST element y* of S whose key is k:  S = pre ++ [y*] ++ post,
         # key(y*) == k, no element of post has key k
